@@ -92,6 +92,8 @@ def gen_contents(rng, blksize, n, big=False):
     sizes = [s for s in sizes if 0 <= s <= 140000]
     if big:
         sizes += [5 * b + 3, 40000 + rng.randrange(100), 65535, 65536, 65537, 131073, 4096, 8192, 12288, 16384]
+        if blksize is None or blksize >= 512:
+            sizes += [262143, 262145, 300000 + rng.randrange(1000), 524288 + 7, 1048576 + 1]
     out = []
     seen = set()
     while len(out) < n:
@@ -177,7 +179,7 @@ def gen_store_op(rng, prof, npids, ncontents, pid=None, focus=None, store_algo=N
         if mode < 0.8:
             canon = rng.choice(M.ALL_ALGOS)
             op["ckalgo"] = spell(rng, canon)
-            op["ck"] = rng.choice(["ok", "ok", "upper", "mixed", "wrong", "wronglen", "wrongcase"])
+            op["ck"] = rng.choice(["ok", "ok", "upper", "mixed", "wrong", "wronglen", "wrongcase", "wrong-nonascii"])
         if rng.random() < 0.6:
             op["size"] = rng.choice(["ok", "ok", "wrong", "wrong-"])
     elif want_algo and rng.random() < 0.5:
@@ -202,7 +204,7 @@ def gen_store_op(rng, prof, npids, ncontents, pid=None, focus=None, store_algo=N
 def gen_div_op(rng, ncontents):
     canon = rng.choice(M.ALL_ALGOS)
     return {"op": "div", "c": rng.randrange(ncontents), "ckalgo": spell(rng, canon),
-            "ck": rng.choice(["ok", "ok", "upper", "mixed", "wrong", "wronglen", "wrongcase"]),
+            "ck": rng.choice(["ok", "ok", "upper", "mixed", "wrong", "wronglen", "wrongcase", "wrong-nonascii"]),
             "size": rng.choice(["ok", "ok", "ok", "wrong", "wrong-"]),
             "meta_has_algo": rng.random() < 0.3,
             # which ObjectMetadata object the caller passes: a fresh one, the one it passed last time for this
@@ -255,7 +257,8 @@ def gen_seq_program(seed, prof, tier="quick", mp=None, length=None):
                 if f not in formats:
                     formats.append(f)
     ncont = rng.randint(2, 3)
-    contents = gen_contents(rng, knobs["blksize"], ncont, big=(prof == "C01" and rng.random() < 0.3))
+    contents = gen_contents(rng, knobs["blksize"], ncont, big=(prof == "C01" and rng.random() < 0.3) or
+                            (prof in ("C02", "C06", "C19") and rng.random() < 0.1))
     mcontents = gen_contents(rng, knobs["blksize"], 3)
     weights = PROFILES[prof]
     if length is None:
@@ -593,6 +596,8 @@ def single_calls(extended=False):
     if extended:
         calls += [
             ("store-validated-wrong", _st(2, 0, ckalgo="md5", ck="wrong")),
+            ("store-size-too-large", _st(2, 0, size="wrong")),
+            ("store-size-too-small", _st(2, 1, size="wrong-")),
             ("store-validated-other-algo", _st(2, 1, ckalgo="sha3_256", ck="upper", add="blake2b")),
             ("store-file-stream", _st(2, 0, kind="file", off=1)),
             ("store-mem-stream", _st(2, 1, kind="mem", short=2)),
